@@ -283,7 +283,18 @@ def run_units(chk, units, samples):
             return
         again = run_batch("fast", DRIVER, [items[i]], chunk=1, timeout=600)[0]
         if again != ("OK", text):
-            raise HarnessError("result of item %s is not reproducible: %r vs %r" % (items[i][:200], text[:300], again[1][:300]))
+            more = [run_batch("fast", DRIVER, [items[i]], chunk=1, timeout=600)[0] for _ in range(2)]
+            if any(r[0] == "TIMEOUT" for r in [again] + more):
+                raise HarnessError("re-running item %s alone timed out: %r" % (items[i][:200], [r[0] for r in [again] + more]))
+            # The programs are deterministic (ASLR off, no clock, no threads) and the driver keeps nothing between
+            # items, so an outcome that differs between the batch process and a fresh process, or between two fresh
+            # processes, is a symptom of the tree under test (typically memory written through a stale pointer). It
+            # has never been seen on the unchanged tree.
+            kind = "between-fresh-processes" if len({again} | set(more)) > 1 else "batch-vs-fresh-process"
+            chk.violation(sig="unstable-outcome:%s" % kind,
+                          what="the same programs with the same arguments give different outcomes (%s): %s: %r vs %r" % (
+                              kind, items[i][:300], text[:300], again[1][:300]),
+                          replay_text="# run in a fresh process, and again after other items in one process: %s\n" % items[i][:2000])
         confirmed.add(i)
     stats = {}
     for ui, ((pname, f, vals, argsform, progs, first), (status, text)) in enumerate(zip(units, res)):
